@@ -236,6 +236,16 @@ def _guard_by_cases(rd: Reader, width: int):
     raises = [e for e in rd.r.of_kind("raise")
               if "FileInterfaceException" in (e.data.get("exc_name") or "")
               and not e.tries]
+    # a ValueError raised by the guard itself inside the try whose handler
+    # turns ValueError into FileInterfaceException is the same refusal
+    converts = any("FileInterfaceException" in (e.data.get("exc_name") or "")
+                   and any(a.op == "exc" for a in tm.atoms(e.live))
+                   for e in rd.r.of_kind("raise"))
+    if converts:
+        raises += [e for e in rd.r.of_kind("raise")
+                   if "ValueError" in (e.data.get("exc_name") or "") and
+                   any("ValueError" in hs or "Exception" in hs
+                       for _, hs in e.tries)]
     first_len = tm.call(tm.glob("builtins.len"),
                         (tm.sub(rd.raw, const(0)),), ())
     nonempty = tm.call(tm.glob("builtins.len"), (rd.raw,), ())
@@ -439,6 +449,18 @@ def check(ctx):
             empty_guarded = all(tm.fold(
                 c.live, lambda t: False if t is rd.raw else None) is False
                 for c in rd.conv)
+            if not (empt and before and guarded and empty_guarded) and \
+                    rd.conv:
+                # the nesting turned round (`if rows: if width ok: convert`,
+                # raise at the end): judged in the worlds of the three widths
+                # and of the empty table
+                wrong = (gconst - 1, gconst + 1) if grel == "NotEq" else \
+                    (gconst - 1,)
+                if all(tm.fold(c.live, _case_env(rd, L_)) is False
+                       for c in rd.conv for L_ in wrong) and all(
+                        tm.fold(c.live, _case_env(rd, 0, empty=True)) is False
+                        for c in rd.conv):
+                    empt = before = guarded = empty_guarded = True
             ctx.ob("C07.5", ge, empt and before and guarded and
                    empty_guarded,
                    f"{name}: empty input and wrong column count are refused "
@@ -570,7 +592,14 @@ def check(ctx):
                   if not in_try else
                   "a handler swallows the conversion error and continues "
                   "with partial data"),
-               key=f"C07.5:{name}:try")
+               key=f"C07.5:{name}:try",
+               # (a handler that only records the failure, with the refusal
+               # raised after the try block, is not read as swallowing)
+               evidence=not (in_try and swallow and any(
+                   x.kind == "raise" and "FileInterfaceException" in (
+                       x.data.get("exc_name") or "") and
+                   x.idx > max(h.idx for h in handlers)
+                   for x in rd.r.events)))
         # ------------------------------------------------------- C07.1 / .6
         ret = rd.r.ret
         ctx.require(ret.op == "call" and ret.args[0].op == "cls",
@@ -1186,7 +1215,10 @@ def _transform(ctx, prog):
            + (f" (further formats: {sorted(kinds - need)})"
               if kinds - need else "") if ok else
            f"load_transform no longer has a loader for "
-           f"{sorted(need - kinds)}: {kinds}", key="C07.1:transform:loaders")
+           f"{sorted(need - kinds)}: {kinds}", key="C07.1:transform:loaders",
+           # (a loader picked from a table / by a computed callee is not
+           # read: no evidence that one is missing)
+           evidence=None not in kinds)
 
 
 # ------------------------------------------------------------ ROS messages
